@@ -187,7 +187,7 @@ def main():
     for kind, lst in (('mutants', M), ('benign', G)):
         d = os.path.join('/verif', kind)
         for f in os.listdir(d):
-            if f.endswith('.patch'):
+            if f.endswith('.patch') and not f.startswith('agent-'):
                 os.remove(os.path.join(d, f))
         for m in lst:
             src = open(os.path.join('/repo', m['file'])).read()
@@ -207,10 +207,24 @@ def main():
                 diff += ''.join(difflib.unified_diff(src2.splitlines(True), new2.splitlines(True), 'a/' + B + f2, 'b/' + B + f2))
             open(os.path.join(d, m['name'] + '.patch'), 'w').write(diff)
             m['patch'] = m['name'] + '.patch'
+    # refactorings authored independently by sub-agents (benign/agent-*.patch are kept as delivered; `git diff` format, -p1)
+    ext_props = {'f': PIPE + ['C01', 'C10'], 'u': PIPE + ['C01', 'C10', 'C14'], 'c': ALL_LAYOUT + ['C09', 'C04'],
+                 'm': ['C01', 'C03', 'C04', 'C05', 'C06', 'C12', 'C14', 'C17']}
+    ext = []
+    for k_, props_ in ext_props.items():
+        notes = {}
+        np_ = os.path.join('/verif/benign', 'agent-%s-notes.json' % k_)
+        if os.path.exists(np_):
+            notes = {n_['name']: n_ for n_ in json.load(open(np_))}
+        for i_ in range(1, 7):
+            f_ = 'agent-%s-r%d.patch' % (k_, i_)
+            if os.path.exists(os.path.join('/verif/benign', f_)):
+                ext.append({'name': 'agent-%s-r%d' % (k_, i_), 'patch': f_, 'properties': sorted(set(props_)),
+                            'note': (notes.get('r%d' % i_, {}).get('what') or '')[:200], 'origin': 'sub-agent'})
     idx = {'mutants': [{k: v for k, v in m.items() if k not in ('pairs', 'extra_edits')} for m in M],
-           'benign': [{k: v for k, v in m.items() if k not in ('pairs',)} for m in G]}
+           'benign': [{k: v for k, v in m.items() if k not in ('pairs',)} for m in G] + ext}
     json.dump(idx, open('/verif/mutants/index.json', 'w'), indent=1)
-    print('%d mutants, %d benign variants' % (len(M), len(G)))
+    print('%d mutants, %d benign variants (+%d from sub-agents)' % (len(M), len(G), len(ext)))
 
 
 if __name__ == '__main__':
